@@ -27,6 +27,12 @@ def register(reg, P):
         "transpose2": lambda x: jnp.transpose(jnp.reshape(x, (1, 3))), "linspace_mul": lambda x: x * jnp.linspace(0.0, 1.0, 3),
         "squeeze_expand": lambda x: jnp.squeeze(jnp.expand_dims(x, 0), 0) + 1.0, "var": lambda x: jnp.var(x),
         "softplus": jax.nn.softplus, "silu": jax.nn.silu, "elu": jax.nn.elu, "leaky": jax.nn.leaky_relu,
+        # every function whose tracing-time substitute carries its OWN differentiation rule
+        "celu": jax.nn.celu, "selu": jax.nn.selu, "softsign": jax.nn.soft_sign, "mish": jax.nn.mish,
+        "prod_axis": lambda x: jnp.prod(jnp.stack([x, x * 2.0]), axis=1), "prod_keep": lambda x: jnp.prod(x, keepdims=True),
+        "jnp_select": lambda x: jnp.select([x > 0.5, x < -0.5], [x * x, -x], default=0.25 * x),
+        "where3": lambda x: jnp.where(x * x > 1.0, x * 2.0, x * x), "take_neg": lambda x: jnp.take(x * x, jnp.array([-1, 0, 0])),
+        "stack_axis1": lambda x: jnp.stack([x, x * x], axis=1), "einsum_outer": lambda x: jnp.einsum("i,j->ij", x, x),
     }
 
     from .families import late
@@ -52,6 +58,7 @@ def register(reg, P):
         "hessian_diag": lambda f: (lambda x: jnp.diagonal(jax.hessian(scalarize(f))(x))),
     }
     quick_t = {"jit", "jit_jit", "vmap", "grad", "jvp", "checkpoint", "vjp"}
+    own_rule = {"celu", "selu", "softsign", "mish", "prod", "prod_axis", "prod_keep", "jnp_select", "where3", "take_neg", "stack_axis1", "einsum_outer", "silu", "elu", "leaky", "sigmoid", "softplus", "gelu", "relu"}
     quick_b = {"sin", "tanh", "relu", "softmax", "cumsum", "where", "clip", "sumsq", "matmul", "concat", "max", "mean", "take", "gelu", "abs", "select", "einsum", "sort", "square", "maximum"}
     for tn, T in transforms.items():
         for bn, f in base.items():
@@ -63,7 +70,7 @@ def register(reg, P):
                 specs = [((3,), F32), ((3,), F32)]
             else:
                 specs = [((3,), F32)]
-            tier = "quick" if (tn in quick_t and bn in quick_b) else "thorough"
+            tier = "quick" if (tn in quick_t and bn in quick_b) or (tn in ("grad", "jvp") and bn in own_rule) else "thorough"
             reg("A7", f"{tn}/{bn}", functools.partial(P, (lambda T, f: T(f))(T, f), specs), tier=tier)
 
     # mixed in_axes
